@@ -110,7 +110,8 @@ def arg_menu():
             ((np.array([1.0, 3.0]),), {}), (({"x": 1.0},), {}), (({"x": 1.0},), {}), (({"x": 2.0},), {}),
             ((1.0,), {"k": 2}), ((1.0,), {"k": 3}), ((np.array([1.0, 2.0, 3.0]),), {}),
             ((None,), {}), (({"y": 1.0},), {}),  # these two make the function raise (TypeError / KeyError)
-            ((1.0, 2), {}), ((1.0, 3), {}), ((2.0, 2), {})]  # second positional argument (a prefix of it is another call)
+            ((1.0, 2), {}), ((1.0, 3), {}), ((2.0, 2), {}),  # second positional argument (a prefix of it is another call)
+            ((np.array([2.0, 2.0]),), {}), ((np.array([]),), {})]  # arrays that compare "all equal" to a scalar
 
 
 def same_value(a, b):
@@ -260,6 +261,44 @@ def check_expr(expr, order):
     return []
 
 
+# ------------------------------------------------------------------ (iii-b) record fields named like library/math names
+FIELD_NAMES = ["e", "pi", "tau", "inf", "nan", "gamma", "exp", "log", "sqrt", "np", "numpy", "math", "abs", "min", "sum",
+               "datum", "context", "x"]
+
+
+def check_field_name(name, other):
+    """A string expression reads the record's fields: a field called like a constant or function that the library also
+    puts into the evaluation namespace is still the field (dict records, attribute records, dicts of arrays)."""
+    from histogrammar.util import serializable
+
+    args = {"name": name, "other": other}
+    out = []
+    exprs = [(name, lambda d: d[name]), ("%s + 2*%s" % (name, other), lambda d: d[name] + 2 * d[other])]
+    recs = [{name: 1.5, other: 4.0}, {name: -0.25, other: 0.5}]
+    for text, pyf in exprs:
+        f = serializable(text)
+        for r in recs:
+            want = pyf(r)
+            o = Rec(0, 0)
+            o.__dict__.clear()
+            o.__dict__.update(r)
+            arrs = {k: np.array([v, v + 1.0]) for k, v in r.items()}
+            for rep, d, exp in (("dict", dict(r), want), ("attr", o, want), ("dict of arrays", arrs, pyf(arrs))):
+                try:
+                    got = f(d)
+                except Exception as e:
+                    out.append(core.v_exc(PROP, "field-names", "string expression on a %s record raised" % rep, e,
+                                          dict(args, expr=text, rep=rep)))
+                    continue
+                same = (isinstance(got, np.ndarray) and np.array_equal(got, exp)) if isinstance(exp, np.ndarray) else (
+                    not isinstance(got, np.ndarray) and same_num(got, exp))
+                if not same:
+                    out.append(FW.violation(PROP, "field-names", "string expression on %s record" % rep,
+                                            "field-shadowed-by-namespace", dict(args, expr=text, rep=rep),
+                                            {"got": repr(got)[:80], "expected": repr(exp)[:80]}))
+    return out
+
+
 def same_num(a, b):
     if isinstance(a, float) and isinstance(b, float) and math.isnan(a) and math.isnan(b):
         return True
@@ -326,6 +365,11 @@ def _task(task):
                 acc.add(check_calls(wname, seq))
                 acc.n("call_sequences")
                 acc.distinct("cases", FW.hkey(("calls", wname, seq)))
+    elif kind == "field-names":
+        for name, other in itertools.permutations(FIELD_NAMES, 2):
+            acc.add(check_field_name(name, other))
+            acc.n("field_name_pairs")
+            acc.n("expression_evaluations", 12)
     elif kind == "expr":
         reps = ["dict", "attr", "scalar"]
         for expr in task[1]:
@@ -365,7 +409,7 @@ def run(tier, seed):
     maxlen_calls = 3 if tier == "quick" else 4
     tasks = [("words", b, 4) for b in BASES]
     tasks += [("calls", w, first, maxlen_calls) for w in wrappers_for_calls() for first in range(len(arg_menu()))]
-    tasks += [("expr", c) for c in chunks if c]
+    tasks += [("expr", c) for c in chunks if c] + [("field-names",)]
     tasks += [("agg", a, 2 if tier == "quick" else 3) for a in ("Sum", "Bin(Average)", "Select(Categorize)", "SparselyBin(Minimize)")]
     accs = FW.pmap(_task, tasks, seed)
     acc = FW.Acc()
@@ -373,7 +417,7 @@ def run(tier, seed):
         acc.merge(a)
     ev = sum(acc.c.get(k, 0) for k in ("wrapper_words", "call_sequences", "expression_evaluations", "aggregator_streams"))
     acc.samples = [{"word": ["cached", ["named", "n1"], "serializable"], "base": "lambda"},
-                   {"wrapper": "cached(named)", "calls": "every sequence of <=%d calls over 17 argument tuples (two make the function raise, three pass a second positional argument)" % maxlen_calls},
+                   {"wrapper": "cached(named)", "calls": "every sequence of <=%d calls over 19 argument tuples (two make the function raise, three pass a second positional argument)" % maxlen_calls},
                    {"expr": exprs[len(exprs) // 2], "orders": "all 6 orders of dict / attribute / bare-scalar records"}]
     cov = {
         "evaluations": ev,
@@ -381,11 +425,12 @@ def run(tier, seed):
         "rule": "(i) every word of length <=4 over {serializable, cached, named(n1), named(n2)} applied to a lambda, a def "
                 "and a string: class, name, == and hash must depend only on the set of wrappers; a name applied to an "
                 "already named function must raise ValueError (def and string carry an implicit name once wrapped); (ii) "
-                "every sequence of <=%d calls over 17 argument tuples (two make the function raise, three pass a second positional argument) (identical / equal-but-distinct / different scalars, "
+                "every sequence of <=%d calls over 19 argument tuples (two make the function raise, three pass a second positional argument) (identical / equal-but-distinct / different scalars, "
                 "arrays, dicts, keyword arguments) through 6 wrappers vs the bare function; (iii) %d expressions of the "
                 "grammar evaluated through the library on dict, attribute and bare-scalar records in all 6 orders vs "
-                "Python's eval; (iv) 4 aggregators built from strings vs functions on every stream of <=%d records (row-wise "
-                "and numpy)" % (maxlen_calls, len(exprs), 2 if tier == "quick" else 3),
+                "Python's eval; every ordered pair of %d field names that collide with names the library injects (math constants and "
+                "functions, np, builtins) read through expressions on dict / attribute / dict-of-arrays records; (iv) 4 aggregators built from strings vs functions on every stream of <=%d records (row-wise "
+                "and numpy)" % (maxlen_calls, len(exprs), len(FIELD_NAMES), 2 if tier == "quick" else 3),
         "exhaustive": True,
         "bounds": {"expressions": len(exprs), "call_sequence_length": maxlen_calls},
     }
@@ -400,6 +445,8 @@ def replay(driver, args):
         return vs
     if driver == "calls":
         return check_calls(args["wrapper"], tuple(args["calls"]))
+    if driver == "field-names":
+        return check_field_name(args["name"], args["other"])
     if driver == "expr":
         return check_expr(args["expr"], tuple(args["order"]))
     return check_agg(args["agg"], [tuple(r) for r in args["stream"]])
